@@ -1075,6 +1075,7 @@ def cases(ctx):
     yield from big_dgram_cases(ctx, rng)
     yield from fallback_cases(ctx, rng)
     yield from tsig_cases(ctx, rng)
+    yield from msgobj_cases(ctx, rng)
 
 
 def udp_exhaustive(ctx):
@@ -1222,7 +1223,7 @@ def digest(b):
 def singles(case):
     """split a batched case into (path, single case with the flavour in position 1)"""
     op = case[0]
-    if op in (1, 2, 3):
+    if op in (1, 2, 3, 11):
         return [((), case)]
     if op == 4:
         _, af, dest, exp, now, os_, query, tab, evs = case
@@ -1388,43 +1389,116 @@ def impl1(case):
             return err
         r, used = res
         return [int(used), r.wire, abs_of_message(r), int(r.time)]
+    if op == 11:
+        return run_msgobj(case)
     raise ValueError("unknown op")
 
 
-def extra(ctx):
-    """send_tcp / send_udp given a Message object (not bytes): what reaches the socket must be the
-    message's own wire form, length-prefixed for TCP - under fragmented sends, sync and async."""
-    rng = ctx.rng
-    F = []
-    n = 0
-    for i in range(ctx.n(60, 600)):
+TSIG_ALGS = ["hmac-sha256", "hmac-sha1", "hmac-sha224", "hmac-sha384", "hmac-sha512", "hmac-sha256-128", "hmac-sha384-192", "hmac-sha512-256", "HMAC-MD5.SIG-ALG.REG.INT"]
+
+
+def make_object_message(rng, variant):
+    """a Message object of the given variant: plain / tsig / pad / tsig+pad; returns (message, keyring)"""
+    q = gen_query(rng)
+    while (q[1] >> 11) & 15 == 5:
         q = gen_query(rng)
-        m = message_of_abs(q)
-        if rng.random() < 0.5:
-            m.flags |= dns.flags.QR
-            owner = m.question[0].name if m.question else dns.name.root
-            m.answer.append(dns.rrset.from_text(owner, 300, "IN", "A", "10.0.0.%d" % rng.randrange(1, 250)))
-        wire = m.to_wire()
-        wevs = sprinkle(rng, [[0, rng.choice([1, 2, 3, 7, 1000])] for _ in range(rng.randrange(8))], "w", 0.1)
+    m = message_of_abs(q[:4])
+    if rng.random() < 0.5:
+        m.flags |= dns.flags.QR
+        owner = m.question[0].name if m.question else dns.name.root
+        m.answer.append(dns.rrset.from_text(owner, 300, "IN", "A", "10.0.0.%d" % rng.randrange(1, 250)))
+    keyring = None
+    if "pad" in variant:
+        m.use_edns(0, pad=rng.choice([128, 468, 32]))
+    if "tsig" in variant:
+        alg = rng.choice(TSIG_ALGS)
+        key = dns.tsig.Key(KEYNAME, bytes(rng.randrange(256) for _ in range(rng.choice([16, 32, 64]))), alg)
+        keyring = {KEYNAME: key}
+        m.use_tsig(keyring, KEYNAME)
+    return m, keyring, q
+
+
+VARIANTS = ["plain", "tsig", "pad", "tsig+pad"]
+
+
+def msgobj_cases(ctx, rng):
+    """send_tcp / send_udp given a Message OBJECT (not bytes) - unsigned, TSIG-signed (several
+    algorithms), EDNS-padded, signed and padded - 1 to 3 per connection, over fragmenting sockets.
+    Oracle-only cases (the messages are rebuilt from the seed in the case)."""
+    for i in range(ctx.n(80, 800)):
+        variants = [rng.choice([0, 1, 2, 3, 1, 3]) for _ in range(rng.choice([1, 1, 2, 3]))]
+        wevs = sprinkle(rng, [[0, rng.choice([1, 2, 3, 7, 1000])] for _ in range(rng.randrange(10))], "w", 0.1)
         wevs = [e for e in wevs if e[1] is not None]
-        dest = ("10.0.0.53", 53)
-        for fl in (0, 1):
-            CLOCK.now = 0
-            ts = (TSock if fl == 0 else ATSock)(b"", [], wevs)
+        revs = sprinkle(rng, [[0, rng.choice([1, 2, 5, 50, 1000])] for _ in range(rng.randrange(12))], "r", 0.1)
+        revs = [e for e in revs if e[0] == 0 or e[1] is not None]
+        yield "msgobj", [11, variants, rng.randrange(1 << 30), wevs, revs]
+
+
+def run_msgobj(case):
+    """-> list of [flavour, text] problems; empty when the stream carries exactly u16(len(w)) + w for
+    every message (w = the message's own wire form), the prefix counts exactly what follows it, and
+    receive_tcp at the other end (with the keyring) returns the messages, in order, equal to the
+    originals."""
+    import random
+
+    _, variants, seed, wevs, revs = case
+    P = []
+    dest = ("10.0.0.53", 53)
+    for fl in (0, 1):
+        rng = random.Random(seed)
+        CLOCK.now = 0
+        msgs = [make_object_message(rng, VARIANTS[v]) for v in variants]
+        ts = (TSock if fl == 0 else ATSock)(b"", [], wevs)
+        wires = []
+        bad = False
+        for (m, keyring, q), v in zip(msgs, variants):
+            vn = VARIANTS[v]
+            before = len(ts.sent)
+            t0 = CLOCK.now
             res, err = _call(fl, lambda: dns.query.send_tcp(ts, m, None), lambda: dns.asyncquery.send_tcp(ts, m, None))
-            n += 1
-            if err is not None or ts.sent != struct.pack("!H", len(wire)) + wire or res[0] != len(wire) + 2:
-                F.append({"kind": "send_tcp_message", "what": "send_tcp(Message) did not put the length-prefixed wire form of the message on the stream", "sig": "send_tcp_message", "flavour": ("sync", "async")[fl], "case": [q, wevs], "impl": [err, ts.sent, wire]})
+            t1 = CLOCK.now
+            CLOCK.now = t0  # the TSIG time-signed of the reference rendering = when send_tcp rendered
+            w = m.to_wire()
+            wires.append(w)
+            piece = ts.sent[before:]
+            if err is not None:
+                P.append([fl, "send_tcp(Message, %s) raised %s" % (vn, err.text)])
+                bad = True
+                break
+            if len(piece) < 2 or struct.unpack("!H", piece[:2])[0] != len(piece) - 2:
+                P.append([fl, "send_tcp(Message, %s): the 2-octet prefix (%d) does not count the octets that follow it (%d): framing lost for every later message" % (vn, struct.unpack("!H", piece[:2])[0] if len(piece) >= 2 else -1, len(piece) - 2)])
+                bad = True
+                break
+            if piece != struct.pack("!H", len(w)) + w or res[0] != len(w) + 2:
+                P.append([fl, "send_tcp(Message, %s) did not put the length-prefixed wire form of the message on the stream" % vn])
+                bad = True
+                break
             us = (USock if fl == 0 else AUSock)(socket.AF_INET, [], [])
             res, err = _call(fl, lambda: dns.query.send_udp(us, m, dest, None), lambda: dns.asyncquery.send_udp(us, m, dest, None))
-            n += 1
-            if err is not None or us.sent != [(wire, dest)] or res[0] != len(wire):
-                F.append({"kind": "send_udp_message", "what": "send_udp(Message) did not send the wire form of the message to the destination", "sig": "send_udp_message", "flavour": ("sync", "async")[fl], "case": [q], "impl": [err, us.sent, wire]})
-        if len(F) > 4:
-            break
-    ctx.notes["extra_evaluations"] = ctx.notes.get("extra_evaluations", 0) + n
-    ctx.notes["extra_nontrivial"] = ctx.notes.get("extra_nontrivial", 0) + n
-    return F
+            if err is not None or us.sent != [(w, dest)] or res[0] != len(w):
+                P.append([fl, "send_udp(Message, %s) did not send the wire form of the message to the destination" % vn])
+            CLOCK.now = t1
+        if bad:
+            continue
+        rs = (TSock if fl == 0 else ATSock)(ts.sent, revs, [])
+        for (m, keyring, q), v, w in zip(msgs, variants, wires):
+            vn = VARIANTS[v]
+            res, err = _call(
+                fl,
+                lambda: dns.query.receive_tcp(rs, None, False, keyring, b"", False),
+                lambda: dns.asyncquery.receive_tcp(rs, None, False, keyring, b"", False),
+            )
+            if err is not None:
+                P.append([fl, "receive_tcp failed on a stream written by send_tcp(Message, %s): %s" % (vn, err.text)])
+                break
+            r = res[0]
+            if r != m or r.id != m.id or int(r.flags) != int(m.flags) or r.wire != w or bool(r.had_tsig) != ("tsig" in vn):
+                P.append([fl, "receive_tcp returned a message different from the %s one given to send_tcp" % vn])
+                break
+        else:
+            if rs.stream:
+                P.append([fl, "octets left on the stream after all messages were received"])
+    return P
 
 
 # ------------------------------------------------------------------ oracle (property text on implementation outputs)
@@ -1577,6 +1651,10 @@ def oracle1(ctx, kind, case, out, flavour):
                 fail("tcp() returned a malformed message")
             elif not genuine(q, pe[1]):
                 fail("tcp() returned a message that is not a response to the query")
+    elif op == 11:
+        for fl, text in out if isinstance(out, list) else []:
+            t = text.decode("latin-1") if isinstance(text, bytes) else str(text)
+            F.append({"kind": kind + ":" + t[:60], "what": t, "sig": t[:40], "flavour": ("sync", "async")[fl], "single": case, "impl": out})
     elif op == 10:
         _, fl, q, qwire, where, timeout, af, o, tab, evs, wevs, stream, revs, now = case
         if isinstance(out, Err):
